@@ -2,6 +2,7 @@
 package analyzer
 
 import (
+	"github.com/go-critic/go-critic/checkers"
 	"github.com/go-critic/go-critic/linter"
 
 	"golang.org/x/tools/go/analysis"
@@ -34,9 +35,17 @@ var (
 	stringParams = make(map[string]*string)
 )
 
-var registeredCheckers = linter.GetCheckersInfo()
+var registeredCheckers []*linter.CheckerInfo
 
 func init() {
+	// The checkers that are generated from the embedded rules are
+	// registered explicitly; without them the analyzer would offer
+	// only a part of what the go-critic command offers.
+	if err := checkers.InitEmbeddedRules(); err != nil {
+		panic(err)
+	}
+	registeredCheckers = linter.GetCheckersInfo()
+
 	Analyzer.Flags.BoolVar(&flagDebugInit, "debug-init", false,
 		`print go-critic initialization related debug info`)
 	Analyzer.Flags.BoolVar(&flagEnableAll, "enable-all", false,
